@@ -30,6 +30,8 @@ func init() {
 			{ID: "C08-R5", Title: "conversion failures on the Eval path are errors, not panics", Floor: 1, Run: c08r5},
 			{ID: "C08-R6", Title: "vm.globals is the conversion of what the host supplies now", Floor: 2, Run: c08r6},
 			{ID: "C08-R7", Title: "conversions return fresh objects or immutable singletons", Floor: 20, Run: c08r7},
+			{ID: "C08-R8", Title: "converters keep no scratch state between conversions (shared with C09-R7)", Floor: 5, Run: cachedObjectsImmutable},
+			{ID: "C08-R9", Title: "the hand-back helper converts unless assignable or inconvertible", Floor: 1, Run: conversionHelperConverts},
 		},
 	})
 }
